@@ -1,5 +1,6 @@
 import Driver.Common
 import Driver.C10
+import Driver.C08
 /-!
 Line protocol of the model driver: one JSON object per input line, `{"f": <function>, …}`,
 one JSON value per output line.  Stateless: every line carries all it needs.
@@ -9,21 +10,28 @@ open Lean Driver
 def handlers : List (String → Json → Option Json) :=
   [ Driver.C10.handle ]
 
-def dispatch (line : String) : Json :=
+/-- handlers that read a table file named on the line (memoised by path) -/
+def ioHandlers : List (String → Json → IO (Option Json)) :=
+  [ Driver.C08.handleIO ]
+
+def dispatch (line : String) : IO Json := do
   match Json.parse line with
-  | .error e => jerr s!"bad-json: {e}"
+  | .error e => return jerr s!"bad-json: {e}"
   | .ok j =>
     let f := fieldStr j "f"
     match handlers.findSome? (fun h => h f j) with
-    | some out => out
-    | none => jerr s!"unknown-function: {f}"
+    | some out => return out
+    | none =>
+      for h in ioHandlers do
+        if let some out ← h f j then return out
+      return jerr s!"unknown-function: {f}"
 
 partial def loop (hin hout : IO.FS.Stream) : IO Unit := do
   let line ← hin.getLine
   if line.isEmpty then return ()
   let l := line.trimAscii.toString
   if !l.isEmpty then
-    hout.putStrLn (dispatch l).compress
+    hout.putStrLn (← dispatch l).compress
   loop hin hout
 
 def main : IO Unit := do
